@@ -63,7 +63,6 @@ package playlist
 
 //@ func MediaPart.marshal
 //@   props C14 C15
-//@   nosafety
 //@   ensures [C15] result in /#EXT-X-PART:DURATION={DF},URI={QS}(,INDEPENDENT=YES)?(,BYTERANGE=("{BR}"|{BR}))?(,GAP=YES)?\n/
 //@   ensures [C15] result in /#EXT-X-PART:DURATION={DF},URI={QS}(,INDEPENDENT=YES)?(,BYTERANGE="{BR}")?(,GAP=YES)?\n/
 //@   emits [C14] "DURATION=" p.Duration
@@ -72,21 +71,18 @@ package playlist
 
 //@ func MediaPartInf.marshal
 //@   props C14 C15
-//@   nosafety
 //@   ensures [C15] result in /#EXT-X-PART-INF:PART-TARGET={DF}\n/
 //@   emits [C14] "PART-TARGET=" t.PartTarget
 //@ end
 
 //@ func MediaSkip.marshal
 //@   props C14 C15
-//@   nosafety
 //@   ensures [C15] result in /#EXT-X-SKIP:SKIPPED-SEGMENTS={INT}\n/
 //@   emits [C14] "SKIPPED-SEGMENTS=" t.SkippedSegments
 //@ end
 
 //@ func MediaServerControl.marshal
 //@   props C14 C15
-//@   nosafety
 //@   ensures [C15] result in /#EXT-X-SERVER-CONTROL:({ATTRS})?\n/
 //@   ensures [C15] result in /#EXT-X-SERVER-CONTROL:(CAN-BLOCK-RELOAD=YES)?(,?PART-HOLD-BACK={DF})?(,?CAN-SKIP-UNTIL={DF})?\n/
 //@   emits [C14] "PART-HOLD-BACK=" t.PartHoldBack
@@ -95,7 +91,6 @@ package playlist
 
 //@ func MediaPreloadHint.marshal
 //@   props C14 C15
-//@   nosafety
 //@   ensures [C15] result in /#EXT-X-PRELOAD-HINT:TYPE=PART,URI={QS}(,BYTERANGE-START={INT})?(,BYTERANGE-LENGTH={INT})?\n/
 //@   emits [C14] "URI=\"" t.URI
 //@   emits [C14] "BYTERANGE-START=" t.ByteRangeStart
@@ -104,7 +99,6 @@ package playlist
 
 //@ func MediaMap.marshal
 //@   props C14 C15
-//@   nosafety
 //@   ensures [C15] result in /#EXT-X-MAP:URI={QS}(,BYTERANGE=("{BR}"|{BR}))?\n/
 //@   ensures [C15] result in /#EXT-X-MAP:URI={QS}(,BYTERANGE="{BR}")?\n/
 //@   emits [C14] "URI=\"" t.URI
@@ -112,21 +106,18 @@ package playlist
 
 //@ func MediaKey.marshal
 //@   props C14 C15
-//@   nosafety
 //@   ensures [C15] result in /#EXT-X-KEY:METHOD=(NONE|AES-128|SAMPLE-AES)(,URI={QS}(,IV=0[xX][0-9a-fA-F]+)?(,KEYFORMAT={QS})?(,KEYFORMATVERSIONS={QS})?)?\n/
 //@   emits [C14] "METHOD=" t.Method
 //@ end
 
 //@ func MultivariantStart.marshal
 //@   props C14 C15
-//@   nosafety
 //@   ensures [C15] result in /#EXT-X-START:TIME-OFFSET={SDF}\n/
 //@   emits [C14] "TIME-OFFSET=" t.TimeOffset
 //@ end
 
 //@ func MultivariantVariant.marshal
 //@   props C14 C15 C16
-//@   nosafety
 //@   ensures [C15,C16] result in /#EXT-X-STREAM-INF:BANDWIDTH={INT}(,AVERAGE-BANDWIDTH={INT})?,CODECS={QS}(,RESOLUTION=[0-9]+x[0-9]+)?(,FRAME-RATE={DF})?(,VIDEO={QS})?(,AUDIO={QS})?(,SUBTITLES={QS})?(,CLOSED-CAPTIONS={QS})?\n{URILINE}\n/
 //@   emits [C14,C16] "#EXT-X-STREAM-INF:BANDWIDTH=" v.Bandwidth
 //@   emits [C14,C16] "AVERAGE-BANDWIDTH=" *v.AverageBandwidth
@@ -136,7 +127,6 @@ package playlist
 
 //@ func MultivariantRendition.marshal
 //@   props C14 C15 C16
-//@   nosafety
 //@   ensures [C15,C16] result in /#EXT-X-MEDIA:TYPE=(AUDIO|VIDEO|SUBTITLES|CLOSED-CAPTIONS),GROUP-ID={QS}(,LANGUAGE={QS})?(,NAME={QS})?(,AUTOSELECT=YES)?(,DEFAULT=YES)?(,FORCED=YES)?(,CHANNELS={QS})?(,URI={QS})?(,INSTREAM-ID={QS})?\n/
 //@   emits [C14,C16] "GROUP-ID=\"" t.GroupID
 //@   emits [C14,C16] "NAME=\"" t.Name
@@ -145,7 +135,7 @@ package playlist
 
 //@ func MediaSegment.marshal
 //@   props C14 C15
-//@   nosafety
+//@   requires forall(j, (0 <= j && j < len(s.Parts)) ==> s.Parts[j] != nil)
 //@   ensures [C15] result in /(#EXT-X-DISCONTINUITY\n)?(#EXT-X-GAP\n)?(#EXT-X-PROGRAM-DATE-TIME:{TIME}\n)?(#EXT-X-BITRATE:{INT}\n)?(#EXT-X-PART:{ATTRS}\n)*#EXTINF:{DF},[^\r\n]*\n(#EXT-X-BYTERANGE:{BR}\n)?{URILINE}\n/
 //@   emits [C14] "#EXTINF:" s.Duration
 //@   emits [C14] "#EXT-X-BITRATE:" *s.Bitrate
@@ -153,7 +143,7 @@ package playlist
 
 //@ func Media.Marshal
 //@   props C14 C15
-//@   nosafety
+//@   requires forall(i, (0 <= i && i < len(m.Segments)) ==> (m.Segments[i] != nil && forall(j, (0 <= j && j < len(m.Segments[i].Parts)) ==> m.Segments[i].Parts[j] != nil))) && forall(j, (0 <= j && j < len(m.Parts)) ==> m.Parts[j] != nil)
 //@   ensures [C15] result0 in /#EXTM3U\n#EXT-X-VERSION:{INT}\n(#EXT-X-INDEPENDENT-SEGMENTS\n)?(#EXT-X-START:TIME-OFFSET={SDF}\n)?(#EXT-X-ALLOW-CACHE:(YES|NO)\n)?#EXT-X-TARGETDURATION:{INT}\n(#EXT-X-SERVER-CONTROL:({ATTRS})?\n)?(#EXT-X-PART-INF:{ATTRS}\n)?#EXT-X-MEDIA-SEQUENCE:{INT}\n(#EXT-X-DISCONTINUITY-SEQUENCE:{INT}\n)?(#EXT-X-PLAYLIST-TYPE:(EVENT|VOD)\n)?(#EXT-X-MAP:{ATTRS}\n)?(#EXT-X-SKIP:{ATTRS}\n)?((#EXT-X-KEY:{ATTRS}\n)?(#EXT-X-DISCONTINUITY\n)?(#EXT-X-GAP\n)?(#EXT-X-PROGRAM-DATE-TIME:{TIME}\n)?(#EXT-X-BITRATE:{INT}\n)?(#EXT-X-PART:{ATTRS}\n)*#EXTINF:{DF},[^\r\n]*\n(#EXT-X-BYTERANGE:{BR}\n)?{URILINE}\n)*(#EXT-X-PART:{ATTRS}\n)*(#EXT-X-PRELOAD-HINT:{ATTRS}\n)?(#EXT-X-ENDLIST\n)?/
 //@   emits [C14] "#EXT-X-VERSION:" m.Version
 //@   emits [C14] "#EXT-X-TARGETDURATION:" m.TargetDuration
@@ -165,7 +155,7 @@ package playlist
 
 //@ func Multivariant.Marshal
 //@   props C14 C15 C16
-//@   nosafety
+//@   requires forall(i, (0 <= i && i < len(m.Variants)) ==> m.Variants[i] != nil) && forall(i, (0 <= i && i < len(m.Renditions)) ==> m.Renditions[i] != nil)
 //@   ensures [C15,C16] result0 in /#EXTM3U\n#EXT-X-VERSION:{INT}\n(#EXT-X-INDEPENDENT-SEGMENTS\n)?(#EXT-X-START:TIME-OFFSET={SDF}\n)?(\n(#EXT-X-MEDIA:{ATTRS}\n)*)?\n(#EXT-X-STREAM-INF:{ATTRS}\n{URILINE}\n)*/
 //@   emits [C14,C16] "#EXT-X-VERSION:" m.Version
 //@ end
